@@ -41,6 +41,12 @@ CLAIMED = {
             "(known finding C11-straddle). Tie: constants, evaluation, binned evaluation and total mass of the real PowerLawIMF vs the model.",
             "Mtot is scipy.quad in the code (exact first moment in the model, 1e-4 budget); constants re-associated in the model (ℝ-equal).",
             "DESIGN §6 C11"),
+    "C13": ("Lean 4 proof (bin-count division, linear/geometric spacing strictly increasing with exact end points, lookup = last lower "
+            "edge <= m with overflow check, truncation touches one upper edge, pack/unpack inverse for any sizes) + correspondence of "
+            "edges, carving, lookup, truncation on real MassBins for every nbins form",
+            "Theorem C13_partial; remnant carving and the NS-bin clause are decided by correspondence (model carve ops) and the sweep.",
+            "np.linspace/np.geomspace trusted to 1e-12 of the model formulas; carving modelled, not proved.",
+            "DESIGN §6 C13"),
 }
 
 NOT_YET = "check not built yet in this session (planned: see DESIGN §6); not claimed until its quick check is silent on the clean tree"
